@@ -218,6 +218,8 @@ struct Stats {
     port_writes: u64,
     boundary_writes: u64,
     settings_reapplied: u64,
+    off_on_toggles: u64,
+    fast_forward_preludes: u64,
     drains: u64,
     undrained_runs: u64,
     ay_cases: u64,
@@ -307,6 +309,22 @@ fn tracking_case(ctx: &Ctx, rng: &mut Rng, id: u64, st: &mut Stats) {
         return;
     }
     let bound = bound_of(&cfg, &lv);
+    // ---- history: now and then the host has fast-forwarded before (maximum-speed pass of several
+    // frames that ended at a breakpoint), then returned to normal speed – audio must be back
+    if rng.chance(1, 5) {
+        m.poke_bytes(0x9F00, &[0x18, 0xFE]);
+        park(&mut m, 0x9F00);
+        crate::host::set_stopwatch(crate::host::SwScript::Zero);
+        m.dbg().calls = 0;
+        m.dbg().mode = crate::host::DbgMode::AtCalls(vec![9000 + rng.below(9000)]);
+        m.emu.set_speed(rustzx_core::EmulationMode::Max);
+        let _ = m.emu.emulate_frames(std::time::Duration::from_secs(1000));
+        m.dbg().mode = crate::host::DbgMode::Never;
+        m.emu.set_speed(rustzx_core::EmulationMode::FrameCount(1));
+        m.run_frames(1);
+        m.drain_audio();
+        st.fast_forward_preludes += 1;
+    }
     // ---- run the program
     m.poke_bytes(PROG, &prog);
     // last calibration value is in force (bits 11); make it a known event at t0
@@ -319,6 +337,7 @@ fn tracking_case(ctx: &Ctx, rng: &mut Rng, id: u64, st: &mut Stats) {
     let mut frames_done = 0u64;
     let mut pending: Vec<(u64, Vec<(f32, f32)>)> = vec![];
     let host_reapplies = rng.chance(1, 3);
+    let host_toggles = rng.chance(1, 4);
     while frames_done < nframes && steps < max_steps {
         let pc = m.cpu().regs.get_pc();
         let is_out = m.peek(pc) == 0xD3 && m.peek(pc.wrapping_add(1)) == 0xFE;
@@ -340,6 +359,19 @@ fn tracking_case(ctx: &Ctx, rng: &mut Rng, id: u64, st: &mut Stats) {
             }
         }
         prev_clock = now;
+        // a host may switch sound (or the speed) off and straight on again while the emulation is
+        // stopped – between two instructions or at the frame end before it takes the samples: nothing
+        // that has been produced may get lost or move
+        if host_toggles && (wrapped && frame % 2 == 0 || rng.chance(1, 3000)) {
+            if rng.bool() {
+                m.emu.set_sound(false);
+                m.emu.set_sound(true);
+            } else {
+                m.emu.set_speed(rustzx_core::EmulationMode::Max);
+                m.emu.set_speed(rustzx_core::EmulationMode::FrameCount(1));
+            }
+            st.off_on_toggles += 1;
+        }
         if wrapped {
             let s = m.drain_audio();
             st.drains += 1;
@@ -558,6 +590,8 @@ pub fn run(ctx: &Ctx) -> Evidence {
         tot.port_writes += r.port_writes;
         tot.boundary_writes += r.boundary_writes;
         tot.settings_reapplied += r.settings_reapplied;
+        tot.off_on_toggles += r.off_on_toggles;
+        tot.fast_forward_preludes += r.fast_forward_preludes;
         tot.drains += r.drains;
         tot.undrained_runs += r.undrained_runs;
         tot.ay_cases += r.ay_cases;
@@ -577,6 +611,8 @@ pub fn run(ctx: &Ctx) -> Evidence {
     ev.add_num("port_fe_writes", tot.port_writes);
     ev.add_num("port_fe_writes_within_30T_of_a_frame_boundary", tot.boundary_writes);
     ev.add_num("host_reapplied_sound_settings_between_frames", tot.settings_reapplied);
+    ev.add_num("sound_or_speed_switched_off_and_on_while_stopped", tot.off_on_toggles);
+    ev.add_num("cases_after_a_fast_forward_pass_ended_by_a_breakpoint", tot.fast_forward_preludes);
     ev.add_num("full_drains", tot.drains);
     ev.add_num("full_drains_after_undrained_frames", tot.undrained_runs);
     ev.add_num("ay_enabled_cases", tot.ay_cases);
